@@ -26,6 +26,7 @@ type Config struct {
 	MaxPaths      int
 	WriteMonitor  bool // C20: report stores into pre-existing objects
 	ArbNarrow     bool // vrt.Arbitrary: collections of at most one item
+	Witnesses     bool // keep the inputs of one completed path per harness (conformance replay)
 	SharedExplicit bool // C20: only globals and what vrt.Shared marks count as pre-existing (shared) state
 	StopOnFirst   bool
 	ArbWide       bool // vrt.Arbitrary: collections of up to 2 entries one level deeper
@@ -86,6 +87,15 @@ type PathResult struct {
 	Reached   []string
 	Required  []string
 	Decisions []int
+	Witness   *Witness
+}
+
+// Witness: the inputs of one completed path that reached an assertion, for the
+// conformance replay (the native build must take the same path and agree).
+type Witness struct {
+	Model   map[string]interface{}
+	Reached []string
+	Asserts int
 }
 
 type Path struct {
@@ -137,10 +147,22 @@ type Stats struct {
 	Stubs     map[string]int
 	Unsupp    map[string]int
 	SharedWrites map[string]int
+	witnessed map[string]int
 }
 
 func NewStats() *Stats {
-	return &Stats{Fns: map[string]int{}, Stubs: map[string]int{}, Unsupp: map[string]int{}, SharedWrites: map[string]int{}}
+	return &Stats{Fns: map[string]int{}, Stubs: map[string]int{}, Unsupp: map[string]int{}, SharedWrites: map[string]int{}, witnessed: map[string]int{}}
+}
+
+// needWitness: the first completed, assertion-reaching path of a harness keeps its inputs.
+func (st *Stats) needWitness(h string) bool {
+	st.mu.Lock()
+	defer st.mu.Unlock()
+	if st.witnessed[h] > 0 && !witnessAll {
+		return false
+	}
+	st.witnessed[h]++
+	return true
 }
 
 func (p *Path) noteFn(fn *ssa.Function) {
@@ -585,6 +607,9 @@ func (p *Path) reportViolation(kind, msg, pos string, bad *smt.Term) (found bool
 
 var debugPaths = os.Getenv("GOSYM_DEBUG_PATHS") != ""
 
+// witnessAll (debugging aid): keep the inputs of every completed path, not one per harness
+var witnessAll = os.Getenv("GOSYM_WITNESS_ALL") != ""
+
 // checkAssert handles vrt.Assert(c,msg).
 func (p *Path) checkAssert(c *smt.Term, msg string, site ssa.Instruction) {
 	p.res.Asserts++
@@ -646,6 +671,14 @@ func (e *Engine) RunPath(s *smt.Solver, st *Stats, t Task) (res PathResult, work
 		switch x := r.(type) {
 		case nil:
 			res.Outcome = "done"
+			if p.E.Cfg.Witnesses && res.Asserts > 0 && len(res.Findings) == 0 && st.needWitness(t.Harness) {
+				func() {
+					defer func() { recover() }()
+					if p.S.Check() == smt.Sat {
+						res.Witness = &Witness{Model: p.model(), Reached: append([]string{}, res.Reached...), Asserts: res.Asserts}
+					}
+				}()
+			}
 		case stopPath:
 			res.Outcome = x.kind
 			res.Msg = x.msg
@@ -725,6 +758,8 @@ type HarnessResult struct {
 	Required   map[string]bool
 	Truncated  bool
 	Wall       time.Duration
+	Witness    *Witness
+	AllWitnesses []*Witness
 }
 
 type SolverStats struct {
@@ -826,6 +861,12 @@ func (e *Engine) Explore(harnesses []Task, st *Stats) (map[string]*HarnessResult
 				}
 				for _, r := range res.Reached {
 					hr.Reached[r]++
+				}
+				if res.Witness != nil && hr.Witness == nil {
+					hr.Witness = res.Witness
+				}
+				if res.Witness != nil && witnessAll {
+					hr.AllWitnesses = append(hr.AllWitnesses, res.Witness)
 				}
 				for _, r := range res.Required {
 					hr.Required[r] = true
